@@ -231,8 +231,17 @@ func RunHeaders(t *sim.Tape, tier string) *sim.RunResult {
 		if c := nf.TotalWork.Cmp(s.TotalWork); c < 0 || (c == 0 && child >= n.HardforkV2.AllowHeight) {
 			h.violate("total-work-not-increasing", fmt.Sprintf("height %d (%s): total work %v -> %v", child, era, s.TotalWork, nf.TotalWork))
 		}
-		if t.Chance(1, 40) && len(seen) < 24 {
+		if (t.Chance(1, 40) || i <= 3) && len(seen) < 24 {
 			seen = append(seen, nf)
+			// a competing child of the same parent (another miner, a later timestamp)
+			bh2 := bh
+			bh2.Timestamp = ts.Add(time.Duration(t.Range(1, 600)) * time.Second)
+			bh2.Nonce += s.NonceFactor()
+			var sib consensus.State
+			if guard(func() { sib = consensus.ApplyHeader(hdr, bh2, ats) }) == "" {
+				seen = append(seen, sib)
+				h.stats.Inc("hdr.sibling-states")
+			}
 		}
 		full, hdr = nf, nh
 		timestamps = append(timestamps, ts)
@@ -243,8 +252,9 @@ func RunHeaders(t *sim.Tape, tier string) *sim.RunResult {
 	// SufficientlyHeavierThan is asymmetric
 	for i := range seen {
 		for j := range seen {
-			if i != j && seen[i].SufficientlyHeavierThan(seen[j]) && seen[j].SufficientlyHeavierThan(seen[i]) {
-				h.violate("heavier-not-asymmetric", fmt.Sprintf("states at heights %d and %d are each 'sufficiently heavier' than the other", seen[i].Index.Height, seen[j].Index.Height))
+			// (i == j: an asymmetric relation holds of no state and itself)
+			if seen[i].SufficientlyHeavierThan(seen[j]) && seen[j].SufficientlyHeavierThan(seen[i]) {
+				h.violate("heavier-not-asymmetric", fmt.Sprintf("states %v (height %d, total work %v, difficulty %v) and %v (height %d, total work %v) are each 'sufficiently heavier' than the other", seen[i].Index.ID, seen[i].Index.Height, seen[i].TotalWork, seen[i].Difficulty, seen[j].Index.ID, seen[j].Index.Height, seen[j].TotalWork))
 			}
 			h.stats.Inc("hdr.heavier-pairs")
 		}
